@@ -582,7 +582,7 @@ def run(res, tier, seed, replay_obj=None):
         "object_unchanged": stats["unchanged"], "object_left_empty": stats["left_empty"], "followup_results_compared": stats["followups"],
         "setup_failed": stats["setup_failed"], "direct_property_violations": stats["violations"],
         "observations": {
-            "level_limits_changed_by_failed_call": {k: sorted(v) for k, v in sorted(obs["limits_changed"].items())},
+            "level_limits_changed_by_failed_call": {k: {"states": len(v), "examples": sorted(v)[:4]} for k, v in sorted(obs["limits_changed"].items())},
             "level_limits_verdict": "the property lists points, values and surrogate: a changed getLevelLimits() after a failed call is recorded "
                                     "here and not counted as a violation; it does change what a later refinement with empty limits proposes "
                                     "(followup_diverges_after_limits_change)",
